@@ -46,6 +46,13 @@ def run(F, R):
     v2_v3(F, R, M, roles, hdr)
     v4_credit(F, R)
     v7_credit_from_every_packet(F, R)
+    # V8: a packet is attributed to the connection whose full addressing it carries (shared with C18.X5): otherwise the
+    # bytes and the credit of one stream are applied to another
+    from .C18 import x5_predicates
+    x5_predicates(F, RuleProxy(R, {'X5': 'V8'}))
+    # V9: the socket queues run in the negotiated modes (C08.H3)
+    from .C08 import queue_modes_rule
+    queue_modes_rule(F, R, M, 'V9', ['device::socket'])
     v5_fwd(F, R)
     v6_ring(F, R)
 
